@@ -404,6 +404,7 @@ func main() {
 	fmt.Fprintf(&b, "/-- slashHandler contains `q.Set(\"arg\", arg)` -/\ndef slashSetsArg : Bool := %v\n\n", slashSetArg)
 	b.WriteString("/-- addHandler: the expression passed as argument of the Cluster.Unpin RPC (which takes a *api.Pin) -/\n")
 	b.WriteString("def addUnpinArg : String := " + lstr(addUnpinArg) + "\n\n")
+	b.WriteString(relaySetup(fset, f))
 	b.WriteString("end CV.Gen.C12\n")
 	fmt.Print(b.String())
 }
